@@ -69,6 +69,11 @@ func (h redisHook) ProcessHook(next redis.ProcessHook) redis.ProcessHook {
 		if h.w.redisQuiet {
 			return next(ctx, cmd)
 		}
+		// under a scheduler every Redis command is a scheduling point of its own: a store method is a sequence of
+		// commands and another check may run between two of them
+		if s := vsched.Active(); s != nil {
+			s.Point("redis:"+cmd.Name(), "")
+		}
 		env := h.w.CurEnv()
 		idx := len(env.RedisCmds)
 		env.RedisCmds = append(env.RedisCmds, cmd.Name())
@@ -111,15 +116,19 @@ type SpyStore struct {
 	// Born is when the session entry under an id came into being (first effective write); with an absolute session
 	// time-out an entry that is older than the limit is gone in the abstract and the next write starts a new one.
 	Born map[string]time.Time
+	// RemovedBy: who (call chain inside internal/authz) last removed the session under an id through the interface
+	RemovedBy map[string]string
 	// Log is the log of all effective calls of the whole history (for monitors that need history).
 	Log []EnvCall
 }
 
 var _ oidc.SessionStore = (*SpyStore)(nil)
 
-func callerInAuthz() string {
-	var pcs [24]uintptr
-	n := runtime.Callers(3, pcs[:])
+func callerInAuthz() string { return callerInAuthzAt(3) }
+
+func callerInAuthzAt(skip int) string {
+	var pcs [32]uintptr
+	n := runtime.Callers(skip, pcs[:])
 	frames := runtime.CallersFrames(pcs[:n])
 	var chain []string
 	for {
@@ -263,7 +272,14 @@ func (s *SpyStore) ClearAuthorizationState(ctx context.Context, sid string) erro
 
 func (s *SpyStore) RemoveSession(ctx context.Context, sid string) error {
 	return s.do("RemoveSession", sid, nil, nil, func() error { return s.Real.RemoveSession(ctx, sid) },
-		func() { delete(s.Ghost, sid); delete(s.Born, sid) })
+		func() {
+			delete(s.Ghost, sid)
+			delete(s.Born, sid)
+			if s.RemovedBy == nil {
+				s.RemovedBy = map[string]string{}
+			}
+			s.RemovedBy[sid] = callerInAuthzAt(4)
+		})
 }
 
 func (s *SpyStore) RemoveAllExpired(ctx context.Context) error {
